@@ -12,5 +12,9 @@ impl Registers {
 pub struct RtId { _p: u8 }
 pub trait Runtime {
     spec fn ident(&self) -> RtId;
+    /// the runtime has a layer that captures assignments and one that holds the counters below or at this scope, so that
+    /// set_global / set_index never reach RuntimeCore's `unreachable!` (unit `stack`: proved unreachable exactly then;
+    /// RuntimeBuilder::build establishes it, the four scope constructors preserve it)
+    spec fn writable(&self) -> bool;
     fn registers(&self) -> &Registers;
 }
